@@ -23,10 +23,11 @@ func propC07() *Property {
 		Explanation: "Dispatcher coverage and crash obligations of the UI only. Decided: (R1) the keys documented in readme.md and in main's help text agree with each other, each is handled by ui.State.Update, and each case calls what the keymap names (j→MoveDown, k→MoveUp, g→MoveToCenter, h→Back, l→Forward, space/c/r/a→switchTo, o/p/b→openExternally; digits, ':', '.', Enter, Esc, Backspace are tested); (R2) every explicit panic in ui, feed, history and ansi that is reachable from Update / SetWidthHeight / Subcommand is discharged: the constants stored to State.mode are handled by view, ReplaceLastLine only receives text that went through ansi.SetLength, feed.Get is called only under Contains of the same offset on the same feed, switchTo only receives values whose dynamic type it handles — and no other panic exists there (a panic guarded by the outcome of parsing typed text has no static discharge); (R3) the results of the unguarded accessor feed.Current() are checked against nil before they are used as a receiver or handed to switchTo; (R4) Update returns before touching any state while the mode is loading. NOT decided: that after an arbitrary key history cursor, page and mode equal the keymap's prediction (refinement over unbounded histories), quiescence of background loads, and History.Current on an empty history (holds by an invariant relating mode and history length that is not structural).",
 		Assumptions: []string{"readme.md 'Keybindings' and main.help() are the documented keymap"},
 		Rules: []Rule{
-			{ID: "C07.R1", Title: "documented keys have the documented handlers", Floor: 14, Run: c07R1},
-			{ID: "C07.R2", Title: "explicit panics reachable from key handling are discharged", Floor: 6, Run: c07R2},
-			{ID: "C07.R3", Title: "possibly-nil highlighted item is checked before use", Floor: 6, Run: c07R3},
+			{ID: "C07.R1", Title: "documented keys have the documented handlers", Floor: 12, Run: c07R1},
+			{ID: "C07.R2", Title: "explicit panics reachable from key handling are discharged", Floor: 3, Run: c07R2},
+			{ID: "C07.R3", Title: "possibly-nil highlighted item is checked before use", Floor: 7, Run: c07R3},
 			{ID: "C07.R4", Title: "keys are ignored while loading", Floor: 1, Run: c07R4},
+			{ID: "C07.R5", Title: "Backspace removes what one key press appended (a rune)", Floor: 2, Run: c07R5},
 		},
 	}
 }
@@ -608,4 +609,48 @@ func c07R4(c *Ctx) {
 		}
 	}
 	c.check(okAll, FuncName(upd)+"/loading-guard", P.InstrPos(guard), FuncName(upd), "while loading, Update returns before reading or writing any other state", why)
+}
+
+// c07R5: the typed buffer grows by string(key) — one rune, one or two bytes —
+// per key press; Backspace must therefore shorten it by one rune: the value
+// stored back is a conversion of a []rune slice, never a byte-slice of the
+// string (which would leave half a character and keep the mode from returning
+// to normal).
+func c07R5(c *Ctx) {
+	P := c.P
+	upd := P.Method("servitor/ui", "State", "Update")
+	bf := P.Field("servitor/ui", "State", "buffer")
+	nAppend, nErase := 0, 0
+	eachInstr(upd, func(_ *ssa.BasicBlock, _ int, in ssa.Instruction) {
+		st, ok := in.(*ssa.Store)
+		if !ok {
+			return
+		}
+		fa, ok := st.Addr.(*ssa.FieldAddr)
+		if !ok || fieldOf(fa) != bf {
+			return
+		}
+		switch v := st.Val.(type) {
+		case *ssa.BinOp:
+			// buffer += string(input)
+			if cv, ok := v.Y.(*ssa.Convert); ok && v.Op == token.ADD {
+				if b, ok := cv.X.Type().Underlying().(*types.Basic); ok && b.Info()&types.IsInteger != 0 {
+					nAppend++
+					c.ok(FuncName(upd)+"/buffer-append", P.InstrPos(in), FuncName(upd), "one key press appends one rune")
+				}
+			}
+		case *ssa.Slice:
+			nErase++
+			c.bad(FuncName(upd)+"/buffer-erase", P.InstrPos(in), FuncName(upd), "Backspace shortens the buffer by one byte of the string although a key press appends a whole rune (bytes >= 0x80 occupy two): the buffer keeps half a character and the mode does not return to normal when it should")
+		case *ssa.Convert:
+			if sl, ok := v.X.(*ssa.Slice); ok {
+				if st, ok := sl.X.Type().Underlying().(*types.Slice); ok && types.Identical(st.Elem().Underlying(), types.Typ[types.Int32]) {
+					nErase++
+					c.ok(FuncName(upd)+"/buffer-erase", P.InstrPos(in), FuncName(upd), "Backspace removes the last rune")
+				}
+			}
+		}
+	})
+	c.check(nAppend >= 1 && nErase >= 1, FuncName(upd)+"/buffer-editing", P.Pos(upd.Pos()), FuncName(upd),
+		fmt.Sprintf("%d append site(s) and %d erase site(s) analysed", nAppend, nErase), "Update no longer appends typed keys to / erases from the buffer in a recognisable way")
 }
